@@ -52,10 +52,13 @@ func runOne(seed uint64, n int, c cfg) ([]byte, error) {
 	if c.mode == "c10" {
 		po.Games = 55
 	}
-	po.SimulConflicts = c.probes["simul"]
+	// conflicting pairs delivered together, transactions delivered after they were mined and coinbase
+	// deposits are ordinary cases (the defects they exhibited are repaired); only the shape of the
+	// recorded finding stale-pending:foreign-input is generated on request
+	po.SimulConflicts = !c.probes["nosimul"]
 	po.ForeignInputs = c.probes["foreign"]
-	po.CoinbaseGames = c.probes["cbgames"]
-	po.AlreadyMined = c.probes["mined"]
+	po.CoinbaseGames = !c.probes["nocbgames"]
+	po.AlreadyMined = !c.probes["nomined"]
 	h.SetPendOpt(po)
 	nW := 1 + r.Intn(2)
 	for i := 0; i < nW; i++ {
@@ -120,13 +123,18 @@ func runOne(seed uint64, n int, c cfg) ([]byte, error) {
 	}
 	// directed shapes of reported findings (only with -probes): played as soon as the chain offers the coins
 	todo := map[string]bool{}
-	for p := range c.probes {
-		if p != "cbgames" {
-			todo[p] = true
-		}
+	if c.probes["foreign"] {
+		todo["foreign"] = true
+	}
+	// the two directed shapes of repaired findings stay in the ordinary mix
+	if r.Chance(25) {
+		todo["simul"] = true
+	}
+	if r.Chance(25) {
+		todo["mined"] = true
 	}
 	steps := 10 + r.Intn(30)
-	for s := 0; s < steps || (len(todo) > 0 && s < 80); s++ {
+	for s := 0; s < steps || (c.probes["foreign"] && len(todo) > 0 && s < 80); s++ {
 		if len(todo) > 0 && len(queue) == 0 && h.N.Height() >= 6 {
 			for _, p := range []string{"simul", "mined", "foreign"} {
 				if todo[p] {
@@ -253,7 +261,7 @@ func runOne(seed uint64, n int, c cfg) ([]byte, error) {
 			default:
 				// a conflict of a pending transaction: held back to be mined, or (probe) delivered as well
 				if tx, _ := h.NewConflict(); tx != nil {
-					if c.probes["simul"] && r.Chance(60) {
+					if po.SimulConflicts && r.Chance(60) {
 						h.Receive(tx)
 						st.Lock()
 						st.simul++
@@ -320,7 +328,7 @@ func main() {
 	workers := flag.Int("j", 12, "parallel worker processes")
 	lag := flag.Bool("lag", true, "let announcements lag")
 	mode := flag.String("mode", "c09", "c09 | c10")
-	probes := flag.String("probes", "", "comma separated finding shapes to generate: simul,foreign,cbgames,mined")
+	probes := flag.String("probes", "", "comma separated: foreign (shape of the recorded finding stale-pending:foreign-input); nosimul,nomined,nocbgames switch ordinary shapes off")
 	warm := flag.Int("warmup", 0, "MASSIP0002 warm-up height (0: leave the consensus value)")
 	first := flag.Int("first", 0, "index of the first history (replay: -first k -n 1)")
 	restart := flag.Bool("restart", true, "restart the wallet process now and then")
